@@ -6,7 +6,7 @@ Require Extraction.
 Require Import ExtrOcamlBasic.
 From JsonSyntax Require Import Base.Prelude Base.Value Base.Unicode Model.Kind Spec.KindSpec
   Model.Parser Model.EntryPoints Model.Compare Model.Object Model.CodeMapNav
-  Model.Printer Spec.Minimal Spec.Layout Model.Unordered.
+  Model.Printer Spec.Minimal Spec.Layout Model.Unordered Spec.Multimap.
 
 Extraction Language OCaml.
 Set Extraction KeepSingleton.
@@ -37,4 +37,8 @@ Extraction "model.ml"
   (* printer *)
   print_with pretty compact inline pretty_print compact_print inline_print to_string
   pre_compute_size string_literal printed_string_size ser_min layout_text layout
-  unordered_eq.
+  unordered_eq
+  (* multimap spec *)
+  m_contains m_indexes_of m_index_of m_redundant_index_of m_get_entries m_get m_get_entries_with_index
+  m_get_unique m_get_unique_entry m_push m_push_front m_remove_at m_insert m_insert_front m_remove
+  m_remove_unique m_get_or_insert_with m_set_value_at m_extend m_from_vec.
